@@ -33,7 +33,7 @@ Proof. vm_compute. reflexivity. Qed.
 Lemma effective_orders_sufficient :
   let E := effective_params header_atomic_table code_params in
   lock_mo_ok E KSpin = true /\ lock_mo_ok E KSync = true /\ lock_mo_ok E KMutex = true /\
-  lock_mo_ok E KTry = true /\ once_mo_ok E = true.
+  lock_mo_ok E KTry = true /\ lock_mo_ok E KNest = true /\ lock_mo_ok E KNestTry = true /\ once_mo_ok E = true.
 Proof. vm_compute. repeat split; reflexivity. Qed.
 
 (* a macro body that drops the order (here: muggle_atomic_clear always relaxed) makes the side condition false:
@@ -89,10 +89,34 @@ Lemma ref_type_is_model :
 Proof. vm_compute. split; [|reflexivity]. repeat (first [left; reflexivity | right]). Qed.
 
 (* ------------------------------------------------------------------ *)
+(* mutex.c: result mapping of the pthread calls, for EVERY value the call may return *)
+Ltac mx_decide := unfold mres; cbv zeta; unfold z2b, b2z; repeat split_if; leaf.
+Lemma gen_mutex_eq rc :
+  fst (gen_mutex_init 0 rc) = fst (mres code_MUGGLE_ERR_SYS_CALL rc) /\
+  gen_mutex_destroy 0 rc = mres code_MUGGLE_ERR_SYS_CALL rc /\
+  gen_mutex_lock 0 rc = mres code_MUGGLE_ERR_SYS_CALL rc /\
+  gen_mutex_trylock 0 rc = mres code_MUGGLE_ERR_ACQ_LOCK rc /\
+  gen_mutex_unlock 0 rc = mres code_MUGGLE_ERR_SYS_CALL rc.
+Proof.
+  unfold code_MUGGLE_ERR_SYS_CALL, code_MUGGLE_ERR_ACQ_LOCK.
+  split; [unfold gen_mutex_init; mx_decide|split; [unfold gen_mutex_destroy; mx_decide|split;
+    [unfold gen_mutex_lock; mx_decide|split; [unfold gen_mutex_trylock; mx_decide|unfold gen_mutex_unlock; mx_decide]]]].
+Qed.
+Lemma mutex_codes : code_MUGGLE_OK = 0 /\ code_MUGGLE_ERR_SYS_CALL <> 0 /\ code_MUGGLE_ERR_ACQ_LOCK <> 0.
+Proof. vm_compute. repeat split; discriminate. Qed.
+Lemma mutex_type_default :
+  code_mutex_init_rc = code_MUGGLE_OK /\
+  (code_mutex_type = pthread_mutex_normal \/ code_mutex_type = pthread_mutex_default).
+Proof. vm_compute. split; [reflexivity|]. first [left; reflexivity | right; reflexivity]. Qed.
+Example mres_nonvacuous : mres 8 0 = (0, 1) /\ mres 8 35 = (8, 1) /\ mres 7 16 = (7, 1).
+Proof. vm_compute. repeat split; reflexivity. Qed.
+
+(* ------------------------------------------------------------------ *)
 (* glue: the side conditions for the call-site orders follow from those for the effective orders *)
 Lemma code_orders_sufficient :
   lock_mo_ok code_params KSpin = true /\ lock_mo_ok code_params KSync = true /\
-  lock_mo_ok code_params KMutex = true /\ lock_mo_ok code_params KTry = true /\ once_mo_ok code_params = true.
-Proof. rewrite <- effective_params_code at 1 2 3 4 5. exact effective_orders_sufficient. Qed.
+  lock_mo_ok code_params KMutex = true /\ lock_mo_ok code_params KTry = true /\
+  lock_mo_ok code_params KNest = true /\ lock_mo_ok code_params KNestTry = true /\ once_mo_ok code_params = true.
+Proof. rewrite <- effective_params_code at 1 2 3 4 5 6 7. exact effective_orders_sufficient. Qed.
 Lemma once_mo_ok_code : once_mo_ok code_params = true.
-Proof. exact (proj2 (proj2 (proj2 (proj2 code_orders_sufficient)))). Qed.
+Proof. exact (proj2 (proj2 (proj2 (proj2 (proj2 (proj2 code_orders_sufficient)))))). Qed.
